@@ -102,6 +102,10 @@ def invocations(seed, n, pyver):
     for k, raw in enumerate(c16_programs.RAW_FILES):
         out.append({"kind": "single", "via": "rawfile", "raw": base64.b64encode(raw).decode("ascii"),
                     "flags": [[], ["--source"], ["--json", "--dis", "--dis-after"]][k % 3]})
+    out.append({"kind": "single", "via": "-c", "program": "x=1", "flags": [], "glued": True})
+    out.append({"kind": "single", "via": "-c", "program": "x = y + 1", "flags": ["--json"], "glued": True})
+    out.append({"kind": "single", "via": "-m", "module": "keyword", "flags": [], "glued": True})
+    out.append({"kind": "single", "via": "-e", "program": "z = 3", "flags": ["--no-normalize"], "glued": True, "eshape": 1})
     for k, name in enumerate(c16_programs.ODD_FILE_NAMES):
         out.append({"kind": "single", "via": "file", "program": PROGRAMS[k % len(PROGRAMS)], "relname": name, "flags": [[], ["--json"], ["--source", "--dis"]][k % 3]})
     for k, prog in enumerate(c16_programs.TEXT_HAZARDS):
@@ -119,7 +123,7 @@ def invocations(seed, n, pyver):
                 prog = PROGRAMS[rng.randrange(len(PROGRAMS))]
             else:
                 prog = gen_src.gen_program(H.rng_for(seed, "c16prog", i), pyver, 0.3)
-            out.append({"kind": "single", "via": via, "program": prog, "flags": flags, "eshape": rng.randrange(N_ESHAPES)})
+            out.append({"kind": "single", "via": via, "program": prog, "flags": flags, "eshape": rng.randrange(N_ESHAPES), "glued": rng.random() < 0.3})
         i += 1
     return out
 
@@ -211,7 +215,7 @@ def run(shard):
 
     cwd = [None]
 
-    def src_argv(via, program=None, module=None, relname=None):
+    def src_argv(via, program=None, module=None, relname=None, glued=False):
         """argv part + (source text, filename) the API side must use."""
         if via == "file":
             fileno[0] += 1
@@ -225,11 +229,14 @@ def run(shard):
                 f.write(program)
             return ([relname], relname) if relname else ([p], p)
         if via == "-c":
-            return ["-c", program.replace("\n", "\\n")], "<string>"
+            pt = program.replace("\n", "\\n")
+            if glued and pt and pt[0] not in "-=":
+                return ["-c" + pt], "<string>"           # getopt spelling: the value attached to the short option
+            return ["-c", pt], "<string>"
         if via == "-e":
             return ["-e", repr(program)], "<string>"
         if via == "-m":
-            return ["-m", module], None
+            return (["-m" + module] if glued else ["-m", module]), None
         raise ValueError(via)
 
     for spec in mine:
@@ -288,11 +295,11 @@ def run(shard):
             sa, filename = [rawpath], rawpath
         elif via == "-e":
             expr, program = e_shape(program, spec.get("eshape", 0))
-            sa, filename = ["-e", expr], "<string>"
+            sa, filename = (["-e" + expr] if spec.get("glued") and expr[0] not in "-=" else ["-e", expr]), "<string>"
             H.feature("e-shape:%d" % spec.get("eshape", 0))
         else:
             cwd[0] = None
-            sa, filename = src_argv(via, program, spec.get("module"), spec.get("relname"))
+            sa, filename = src_argv(via, program, spec.get("module"), spec.get("relname"), spec.get("glued", False))
         argv = sa + flags
         spec["argv_show"] = [a if len(a) < 80 else a[:77] + "..." for a in argv]
         p = subprocess.run([sys.executable] + OFLAGS + ["-c", launcher] + argv, env=env, stdout=subprocess.PIPE, stderr=subprocess.PIPE, timeout=300,
